@@ -21,7 +21,9 @@ REPLAYS = os.path.join(VERIF, "replays")
 KNOWN = os.path.join(VERIF, "known_findings.json")
 TARGETS = {"x86_64": "x86_64-unknown-linux-gnu", "i686": "i686-unknown-linux-gnu", "aarch64": "aarch64-unknown-linux-gnu",
            # x86_64 with the AES-NI arm live under the interpreter: detection granted, _mm_aeskeygenassist_si128 modelled
-           "x86_64-ni": "x86_64-unknown-linux-gnu"}
+           "x86_64-ni": "x86_64-unknown-linux-gnu",
+           # big-endian 64-bit target: byte-order assumptions in the portable backends (family sweep only)
+           "s390x": "s390x-unknown-linux-gnu"}
 
 # families cheap enough for the interpreter (no big const tables, no 521-encryption key setup)
 CHEAP = ["aes128", "aes192", "aes256", "des", "tdes_ede3", "tdes_eee2", "sm4", "xtea", "speck64_128", "speck128_256",
@@ -225,7 +227,7 @@ def minimise_exec(r, want_status, want_prop=None, max_rounds=6):
 def miri_exec_engine(prop, tier, seed):
     quick = tier == "quick"
     nlists = 8 if quick else 64
-    targets = ["x86_64", "i686", "aarch64", "x86_64-ni"]
+    targets = ["x86_64", "i686", "aarch64", "x86_64-ni", "s390x"]
     # quick tier: random lists stay below 26 blocks per call (the deterministic grids carry the long batches)
     mb = 26 if quick else None
     files = export_lists(prop, seed, nlists, 10 if quick else 16, 3, "exec", max_blocks=mb)
@@ -278,6 +280,7 @@ def miri_exec_engine(prop, tier, seed):
         os.makedirs(gdir, exist_ok=True)
         fams_out = subprocess.run([NATIVE, "families"], capture_output=True, text=True).stdout.split("\n")
         fam_crate = [(ln.split()[0], ln.split()[1]) for ln in fams_out if ln.strip()]
+        fam_vars = {ln.split()[0]: ln.split("variants=")[1].split(",") for ln in fams_out if "variants=" in ln}
         seen, sweep = set(), []
         for f, c in fam_crate:
             if quick and c in seen:
@@ -289,13 +292,21 @@ def miri_exec_engine(prop, tier, seed):
                     continue
             sweep.append(f)
         for f in sweep:
-            outp = os.path.join(gdir, f"{prop}-sweep-{f}.json")
-            pr = subprocess.run([NATIVE, "export-target-grid", "--sweep", "--prop", prop, "--seed", str(seed), "--family", f, "--variant", "-", "--par", "1", "--out", outp], capture_output=True, text=True)
-            if pr.returncode != 0:
-                raise RuntimeError("export-target-grid --sweep failed: " + pr.stderr[-300:])
-            sweep_jobs.append(("i686", outp, False))
-            if not quick or prop == "C04":
-                sweep_jobs.append(("x86_64", outp, False))
+            # first list: the default build and the last variant; further lists: the remaining build variants in
+            # pairs (every cfg arm of the crate meets the 32-bit and the big-endian target)
+            vs = fam_vars.get(f, [])
+            rest = [v for v in vs[1:-1]]
+            chunks = ["-"] + [",".join(rest[i:i + 2]) for i in range(0, len(rest), 2)]
+            for ci, ch in enumerate(chunks):
+                outp = os.path.join(gdir, f"{prop}-sweep-{f}-{ci}.json")
+                pr = subprocess.run([NATIVE, "export-target-grid", "--sweep", "--prop", prop, "--seed", str(seed), "--family", f, "--variant", ch, "--par", "1", "--out", outp], capture_output=True, text=True)
+                if pr.returncode != 0:
+                    raise RuntimeError("export-target-grid --sweep failed: " + pr.stderr[-300:])
+                sweep_jobs.append(("i686", outp, False))
+                if ci == 0 or not quick or f == "kuznyechik":
+                    sweep_jobs.append(("s390x", outp, False))
+                if not quick and ci == 0:
+                    sweep_jobs.append(("x86_64", outp, False))
     jobs = [(t, f, False) for t in ("x86_64", "i686") for f in files]
     jobs += route_jobs
     jobs += sweep_jobs
@@ -329,8 +340,11 @@ def miri_exec_engine(prop, tier, seed):
                 (viols if prop == "C03" else notes).append(("C03", sig, rp, f"history digest differs between native x86-64 and Miri {r['target']}"))
         elif st == "violation":
             d = r["detail"]
+            if prop in (d.get("also_violates") or []):
+                # the same observation contradicts this property too (the native engine attributes the same way)
+                d = dict(d, property=prop, reported_as=d["property"])
             sig = f"{d['property']}/{d['class']}/{d['family']}/{d['variant']}"
-            small = minimise_exec(r, "violation", d["property"]) if (d["property"] == prop and len(viols) < 2) else None
+            small = minimise_exec(r, "violation", d.get("reported_as", d["property"])) if (d["property"] == prop and len(viols) < 2) else None
             rp = write_replay(f"{base}-{r['target']}.miri.json", {"format": "block-ciphers-sim-replay/1", "property": d["property"], "engine": "miri",
                               "mode": "exec", "target": r["target"], "grant": r.get("grant", False), "miriflags": "", "list": small or json.load(open(r["file"])), "violation": d})
             (viols if d["property"] == prop else notes).append((d["property"], sig, rp, d["detail"]))
@@ -599,7 +613,7 @@ def replay(path):
 
 def warm():
     rc = 0
-    for t in ("x86_64", "i686", "aarch64", "x86_64-ni"):
+    for t in ("x86_64", "i686", "aarch64", "x86_64-ni", "s390x"):
         e = env_offline()
         if t in ("aarch64", "x86_64-ni"):
             e["RUSTFLAGS"] = "-C target-feature=+aes"
